@@ -34,6 +34,8 @@ structure Oracle where
   logReadyEver : List String := []
   logReadyInst : List (String × Nat) := []    -- (name, instance number) whose ready line was seen
   foundAt : List (String × String × Nat) := [] -- (dependent, dependency, instance number of the dependency at the look-up)
+  noneAt : List (String × String × Nat) := []  -- (dependent, dependency, instance number at a look-up that found nothing registered)
+  tpConcurrent : List String := []             -- while a signalled command with a kill timeout was pending, several requests on the name overlapped
   startedEver : List String := []
   terminatingEver : List String := []
   readySince : List String := []
@@ -171,10 +173,11 @@ def onObs (o : Oracle) (op : List String) (cmdAfter : List String)
     (st : List (String × (String × Int × Nat × String))) (ob : String) : Oracle × List String :=
   match words ob with
   | ["dep", x, k, "found"] =>
-    ({ o with found := o.found ++ [(x, k)],
+    ({ o with found := o.found ++ [(x, k)], noneAt := o.noneAt.filter fun e => !(e.1 == x && e.2.1 == k),
               foundAt := (o.foundAt.filter fun e => !(e.1 == x && e.2.1 == k)) ++ [(x, k, lookupD o.seenSeq k 0)] }, [])
   | ["dep", x, k, "none"] =>
-    ({ o with found := o.found.filter (· ≠ (x, k)), foundAt := o.foundAt.filter fun e => !(e.1 == x && e.2.1 == k) }, [])
+    ({ o with found := o.found.filter (· ≠ (x, k)), foundAt := o.foundAt.filter fun e => !(e.1 == x && e.2.1 == k),
+              noneAt := (o.noneAt.filter fun e => !(e.1 == x && e.2.1 == k)) ++ [(x, k, lookupD o.seenSeq k 0)] }, [])
   | ["started", x] => ({ o with startedEver := addS o.startedEver x }, [])
   | ["logready", x] =>
     ({ o with logReadyEver := addS o.logReadyEver x, readySince := addS o.readySince x,
@@ -215,7 +218,11 @@ def onObs (o : Oracle) (op : List String) (cmdAfter : List String)
     let gate := (d.deps.filterMap fun (k, c) =>
       -- a dependency that had an instance in this run and has ended (finished, failed, skipped) without
       -- meeting the condition was scheduled to run just the same, whether or not it is still registered
-      let endedBadly := lookupD o.seenSeq k 0 > 0 && isTerminal (lookupD o.status k "") && !(o.ovNames.contains k)
+      -- (not, however, when the dependent looked before the dependency had any instance, or when the
+      -- instance that ended is a later one than existed at the look-up: then it was not scheduled to run
+      -- when the dependent asked)
+      let lookedBefore := o.noneAt.any fun e => e.1 == x && e.2.1 == k && (e.2.2 == 0 || e.2.2 != lookupD o.seenSeq k 0)
+      let endedBadly := lookupD o.seenSeq k 0 > 0 && isTerminal (lookupD o.status k "") && !(o.ovNames.contains k) && !lookedBefore
       -- process_log_ready is about the run the dependent looked up: a ready line printed by an earlier
       -- run of the dependency (it ended and was started again) does not count
       let staleLine := c == "l" && !(o.ovNames.contains k) &&
@@ -241,7 +248,7 @@ def onObs (o : Oracle) (op : List String) (cmdAfter : List String)
     -- one request at a time no new command of `x` is launched while the signalled one is still alive
     let inflight := (o.calls.filter fun (c : String × List String) => !o.retd.contains c.1 &&
       (c.2 == ["stop", x] || c.2 == ["restart", x] || c.2 == ["start", x] || c.2 == ["shutdown"])).length
-    let early := if o.termPending.contains x && inflight ≤ 1 then
+    let early := if o.termPending.contains x && inflight ≤ 1 && !(o.tpConcurrent.contains x) then
         [s!"C08:launch-while-kill-timeout-pending {x}", s!"C06:stop-returned-before-kill-timeout {x}"] else []
     -- C08: an instance that a served restart / stop-and-start has replaced (a newer instance of the name
     -- exists, nobody else is asking, and it was not caught inside a check-then-act window) launches nothing
@@ -400,7 +407,8 @@ def feed (o : Oracle) (op : List String) (impl : String) : Oracle × String :=
         if n > lookupD o.seenSeq x 0 then
           { o with seenSeq := setKV o.seenSeq x n, fresh := addS o.fresh key,
 
-                   found := o.found.filter (·.1 ≠ x), foundAt := o.foundAt.filter (·.1 ≠ x), launchesInst := setKV o.launchesInst x 0,
+                   found := o.found.filter (·.1 ≠ x), foundAt := o.foundAt.filter (·.1 ≠ x), noneAt := o.noneAt.filter (·.1 ≠ x),
+                   launchesInst := setKV o.launchesInst x 0,
                    exitAfterSd := delS o.exitAfterSd x, probersDown := delS o.probersDown x }
         else o
       | _ => o
@@ -502,6 +510,12 @@ def feed (o : Oracle) (op : List String) (impl : String) : Oracle × String :=
   let soa := o.startOnActive.filter fun (ix : String × String) =>
     isRunningSt (lookupD o.status ix.2 "") && cmd.contains ix.2
   let o := { o with startOnActive := soa }
+  -- requests on a name that overlap while its signalled command waits for the kill timeout
+  let tpc := o.termPending.foldl (fun l x =>
+    let n := (o.calls.filter fun (c : String × List String) => !o.retd.contains c.1 &&
+      (c.2 == ["stop", x] || c.2 == ["restart", x] || c.2 == ["start", x] || c.2 == ["shutdown"])).length
+    if n > 1 then addS l x else l) (o.tpConcurrent.filter fun x => o.termPending.contains x)
+  let o := { o with tpConcurrent := tpc }
   let sor := o.startOnReg.filter fun (ix : String × String) =>
     run.contains ix.2 && ((csv th).filter fun (t : String) => procNameOfKey ((t.splitOn "@").headD "") == some ix.2).length == 1
   let o := { o with startOnReg := sor }
